@@ -4,8 +4,12 @@ C01 — keeper level (executable model): `SettleOrders` (MsgMarketSettle), `Fill
 (x/exchange/keeper/fulfillment.go:42,138,229,267; keeper/orders.go:486,526 `getAskOrders`/`getBidOrders`;
 keeper/market.go:386,458 `getSellerSettlementRatio`/`calculateSellerSettlementRatioFee`).
 
-Not modelled here (other properties' subject, kept out of the generated histories): holds (C02),
-permissions / required attributes (C11), creation fees, insufficient funds.
+The messages are modelled as the chain runs them: the request's `ValidateBasic` (msgs.go:157,197,235 —
+its order-id part) and then the keeper function (`msgMarketSettle` / `msgFillBids` / `msgFillAsks`).
+
+Not modelled here (other properties' subject, kept out of the generated histories): the hold module's
+own bookkeeping (C02; `holdsOf` only states what is on hold as a function of the open orders, for the
+dump), permissions / required attributes (C11), creation fees, insufficient funds.
 -/
 import PvModel.Settle
 
@@ -19,6 +23,10 @@ inductive KErr where
   | total                  -- "total assets/price … does not equal sum of … order assets/prices"
   | priceNotAboveFees      -- validateAskPrice: "price … is not more than … fee …"
   | expectPartial          -- "settlement resulted in unexpected partial order" / "… all orders fully filled"
+  | noIds                  -- ValidateBasic: "no ask/bid order ids provided"
+  | zeroId                 -- ValidateBasic: "invalid … order ids: cannot contain order id zero"
+  | dupIds                 -- ValidateBasic: "duplicate … order ids provided"
+  | bothSides              -- ValidateBasic: "order ids duplicated as both bid and ask"
   deriving DecidableEq, Repr
 
 def KErr.toString : KErr → String
@@ -27,6 +35,10 @@ def KErr.toString : KErr → String
   | .total => "err:total"
   | .expectPartial => "err:expectpartial"
   | .priceNotAboveFees => "err:price_not_above_fees"
+  | .noIds => "err:noids"
+  | .zeroId => "err:zeroid"
+  | .dupIds => "err:dupids"
+  | .bothSides => "err:bothsides"
 
 /-- the part of the chain state a settlement touches -/
 structure KState where
@@ -167,6 +179,57 @@ def KState.createOrder (s : KState) (o : Order) : Except KErr KState :=
     | .error e => .error e
     | .ok () => .ok { s with nextId := s.nextId + 1, orders := s.orders ++ [{ o with id := s.nextId }] }
 
+/-! ### The messages' `ValidateBasic` (x/exchange/msgs.go:157,197,235; orders.go:60,87)
+
+What `runTx` runs before the message reaches the msg server.  Only the order-id part is modelled (the
+other fields — addresses, market id, the coins' well-formedness — are kept valid in the generated
+histories): `ValidateOrderIDs` wants at least one id, no zero id and no id twice (`findDuplicateIDs`);
+`MsgMarketSettleRequest.ValidateBasic` additionally wants no id in both lists (`IntersectionUint64`).
+The errors are joined in this order; the first one decides the class. -/
+
+/-- `ValidateOrderIDs(field, orderIDs)` (orders.go:87) -/
+def validateOrderIDs (ids : List Nat) : Except KErr Unit :=
+  if ids = [] then .error .noIds
+  else if 0 ∈ ids then .error .zeroId
+  else if ¬ ids.Nodup then .error .dupIds
+  else .ok ()
+
+/-- `MsgMarketSettleRequest.ValidateBasic` (msgs.go:235), the order-id part -/
+def settleValidateBasic (askIds bidIds : List Nat) : Except KErr Unit :=
+  match validateOrderIDs askIds with
+  | .error e => .error e
+  | .ok () =>
+    match validateOrderIDs bidIds with
+    | .error e => .error e
+    | .ok () => if askIds.any (bidIds.contains ·) then .error .bothSides else .ok ()
+
+/-- `MsgMarketSettle` as the chain runs it: `ValidateBasic`, then the msg server → `SettleOrders`. -/
+def KState.msgMarketSettle (s : KState) (market collector : Addr) (askIds bidIds : List Nat) (expectPartial : Bool) :
+    Except KErr KState :=
+  match settleValidateBasic askIds bidIds with
+  | .error e => .error e
+  | .ok () => s.settleOrders market collector askIds bidIds expectPartial
+
+/-- `MsgFillBids`: `ValidateBasic` (msgs.go:157), then the msg server → `FillBids`. -/
+def KState.msgFillBids (s : KState) (market collector : Addr) (seller : Addr) (ids : List Nat) (totalAssets : Coins)
+    (flat : Coins) : Except KErr KState :=
+  match validateOrderIDs ids with
+  | .error e => .error e
+  | .ok () => s.fillBids market collector seller ids totalAssets flat
+
+/-- `MsgFillAsks`: `ValidateBasic` (msgs.go:197), then the msg server → `FillAsks`. -/
+def KState.msgFillAsks (s : KState) (market collector : Addr) (buyer : Addr) (ids : List Nat) (totalPrice : Denom × Int)
+    (buyerFees : Coins) : Except KErr KState :=
+  match validateOrderIDs ids with
+  | .error e => .error e
+  | .ok () => s.fillAsks market collector buyer ids totalPrice buyerFees
+
+/-- what is on hold for an account: the hold amounts of its open orders (`CreateAskOrder`/`CreateBidOrder`
+add `GetHoldAmount()`, `closeSettlement` releases the filled orders' `GetHoldAmount()`; the hold module
+itself is C02's subject — here it is an observation of the dump) -/
+def KState.holdsOf (s : KState) (a : Addr) : Coins :=
+  ((s.orders.filter (·.owner = a)).map Order.holdAmount).flatten
+
 /-- the messages of a history -/
 inductive KOp where
   | create (o : Order)
@@ -174,13 +237,13 @@ inductive KOp where
   | fillBids (seller : Addr) (ids : List Nat) (totalAssets flat : Coins)
   | fillAsks (buyer : Addr) (ids : List Nat) (totalPrice : Denom × Int) (fees : Coins)
 
-/-- one message; a rejected message leaves the state unchanged -/
+/-- one message (through `ValidateBasic` and the msg server); a rejected message leaves the state unchanged -/
 def KState.apply (market collector : Addr) (s : KState) (op : KOp) : KState :=
   let r := match op with
     | .create o => s.createOrder o
-    | .settle a b ep => s.settleOrders market collector a b ep
-    | .fillBids seller ids ta flat => s.fillBids market collector seller ids ta flat
-    | .fillAsks buyer ids tp fees => s.fillAsks market collector buyer ids tp fees
+    | .settle a b ep => s.msgMarketSettle market collector a b ep
+    | .fillBids seller ids ta flat => s.msgFillBids market collector seller ids ta flat
+    | .fillAsks buyer ids tp fees => s.msgFillAsks market collector buyer ids tp fees
   match r with
   | .ok s' => s'
   | .error _ => s
